@@ -681,6 +681,11 @@ def c04(tier, seed):
               "4 miter limits) and transform (identity, scale 2, 1/2, quarter-pixel shift, rotation by 90 and atan(4/3), mirror) by hash; "
               "non-trivial = both must-paint and must-not-paint pixels exist")
     v.trusted = ["harness render (harness/src/strokefam.rs)", "Stroke.tla piece construction in 1/64 px with rounding bound EPS added to the margin"]
+    # design level: the stroker's piece emission (StrokeImpl.tla, as repaired) emits exactly the rectangles,
+    # joins and caps of the P-level structure for every flat path of <= LEN ops over a 4-point menu
+    r = run_tlc("C04", "MC_Stroke", env={"LEN": 6 if th else 5}, workers=12, timeout=2400)
+    v.add_tlc(r)
+    v.extra["ip_refinement"] = "MC_Stroke: stroke_to_path's emission (cur_pt, start_point, last_normal; Close; caps) = P-level pieces as bags; %d states" % r.distinct
     scs = []
     for fam, nseg, nvar, sim in ((5, 2, 1, None), (13, 2, 1, None), (5, 3, 1, 250 if not th else 1500), (13, 3, 1, 150 if not th else 800)):
         env = {"FAMILY": fam, "NSEG": nseg, "NSUB": 1, "NVAR": (2 if th else nvar), "SALT": seed}
